@@ -1,6 +1,6 @@
 """Rules on Zobrist keys, writers of Board's cached fields and the from-scratch hash (C05 H1, H3, H4, H6; C11 V3)."""
 from .fx import FxBuilder, walk_tree, unstamp
-from .expr import show
+from .expr import show, walk
 
 BOARD = "owlchess::board::Board"
 OWNERS = ("chess/src/board.rs", "chess/src/moves/base.rs")
@@ -172,6 +172,37 @@ def from_scratch_rule(ctx, facts, rid):
                 got["pieces"] = True
         side = facts.const_int("owlchess::zobrist::MOVE_SIDE")
         sv = got.get("sidevals", {})
+        if not (sv.get(True) == side and sv.get(False) == 0 and got["ep"] and got["castling"] and got["pieces"]):
+            # other shapes (terms computed separately, iterator chains with closures): inventory of the key readers and their operands
+            Z = "owlchess::zobrist::"
+            fb2 = FxBuilder(facts, stop={Z + "pieces", Z + "enpassant", Z + "castling"})
+            bodies = [fn] + [f for f in facts.fns.values() if f.kind == "Closure" and f.def_path.startswith(fn.def_path + "::{closure")]
+            seen = {}
+            for bfn in bodies:
+                for n, conds, _inl in walk_tree(fb2.tree(bfn)):
+                    if n[0] == "call" and (n[2] or "").startswith(Z):
+                        seen.setdefault(n[2][len(Z):], []).append([show(unstamp(a)) for a in n[3]])
+                    if n[0] == "call":
+                        for a in n[3]:
+                            ua = unstamp(a)
+                            if ua[0] == "fn" and ua[1].startswith(Z):
+                                seen.setdefault(ua[1][len(Z):], []).append([show(unstamp(x)) for x in n[3]])
+                    if n[0] in ("ret", "lstore", "switch"):
+                        for x in walk(unstamp(n[1] if n[0] != "lstore" else n[4])):
+                            if x[0] == "const" and x[1] == side:
+                                cs = [show(unstamp(c[0])) for c in conds] + [show(unstamp(n[1]))]
+                                if any("self.side" in c for c in cs) or "self.side" in show(unstamp(n[1] if n[0] != "lstore" else n[4])):
+                                    sv = {True: side, False: 0}
+            txt_all = " ".join(show(unstamp(n[1])) for bfn in bodies for n, _c, _i in walk_tree(fb2.tree(bfn)) if n[0] == "ret")
+            if any("ep_source" in " ".join(a) for a in seen.get("enpassant", [])):
+                got["ep"] = True
+            if any("self.castling" in " ".join(a) for a in seen.get("castling", [])):
+                got["castling"] = True
+            if seen.get("pieces"):
+                got["pieces"] = True
+            only_xor = not any(op in txt_all for op in (" BitOr ", " BitAnd ", " Add ", "wrapping_add"))
+            if not only_xor:
+                got["pieces"] = False
         r.check(sv.get(True) == side and sv.get(False) == 0, "scratch/side", "from-scratch hash does not start with MOVE_SIDE for White / 0 for Black: %s" % sv,
                 site=ctx.site(fn), what="side term: White->MOVE_SIDE, Black->0 (make toggles MOVE_SIDE)")
         r.check(got["ep"], "scratch/ep", "from-scratch hash does not XOR ENPASSANT[ep_source] when a mark is set", site=ctx.site(fn), what="ENPASSANT[ep_source] iff Some")
